@@ -28,6 +28,15 @@ FileOK(t, o) ==
    as planned (e.g. the implementation registers strings differently); the files are still judged *)
 Note(what) == PrintT(<<"NOTE", l, what>>)
 
+(* long sequences are reported by their first difference *)
+FirstDiff(a, b) == LET d == {i \in 1..(IF Len(a) < Len(b) THEN Len(a) ELSE Len(b)) : a[i] # b[i]}
+                   IN IF d = {} THEN 0 ELSE MinOf(d)
+Brief(q) == IF Len(q) <= 16 THEN q ELSE <<"sequence of length", Len(q)>>
+BriefPair(c, w) == IF Len(c) <= 16 /\ Len(w) <= 16 THEN <<c, w>>
+                   ELSE LET d == FirstDiff(c, w) IN
+                        <<"cells", Len(c), "want", Len(w), "first difference at", d,
+                          IF d > 0 THEN <<c[d], w[d]>> ELSE <<>> >>
+
 Ev == Rec[l]
 Step1(e) ==
   IF e.a = "Fatal" THEN UNCHANGED cvars /\ Mismatch(l, <<"impl", "fatal", e.outcome>>)
@@ -51,8 +60,9 @@ Step1(e) ==
           ELSE LET bad == {t \in Savers : ~FileOK(t, e.outs[t])} IN
                IF bad = {} THEN TRUE
                ELSE Mismatch(l, <<"impl", "file", MinOf(bad), "part/rel", part[MinOf(bad)], rel[MinOf(bad)],
-                                  "dump", dump[MinOf(bad)], "todo", todo[MinOf(bad)],
-                                  "observed", e.outs[MinOf(bad)].outcome, e.outs[MinOf(bad)].cells,
+                                  "dump", Brief(dump[MinOf(bad)]), "todo", Brief(todo[MinOf(bad)]),
+                                  "observed", e.outs[MinOf(bad)].outcome,
+                                  BriefPair(e.outs[MinOf(bad)].cells, e.outs[MinOf(bad)].want),
                                   e.outs[MinOf(bad)].view.sst, e.outs[MinOf(bad)].view.has_part,
                                   e.outs[MinOf(bad)].view.has_rel>>)
   ELSE UNCHANGED cvars /\ Mismatch(l, <<"gen", e.a>>)
